@@ -38,7 +38,13 @@ pub fn limit_json(l: Option<u32>) -> Value {
 }
 
 pub fn case_json(l: &Listing, n: usize, mode: &str, limit: Option<u32>, cursor: Option<&Key>) -> Value {
+    case_json_reading(l, n, mode, limit, cursor, false)
+}
+
+/// `alt_reading`: the case is judged under the alternative notion of "current item" (see `Built::alt`)
+pub fn case_json_reading(l: &Listing, n: usize, mode: &str, limit: Option<u32>, cursor: Option<&Key>, alt_reading: bool) -> Value {
     json!({
+        "alt_reading": alt_reading,
         "listing": l.name,
         "n": n,
         "mode": mode,
@@ -224,7 +230,7 @@ pub fn check_page(l: &Listing, b: &Built, n: usize, limit: Option<u32>, cursor: 
                 "C20.empty_page_before_end",
                 format!("{ctx}: empty page although {} current items follow the cursor (a walk ends here and misses them); {shown}", rest.len()),
             ));
-        } else if l.filtered {
+        } else if b.filtered {
             // a filtered listing may legitimately return a short page; counted and reported as information
         } else if limit.is_none() {
             viols.push(Violation::new(
@@ -339,13 +345,43 @@ pub struct Info {
     pub point_queries: u64,
     pub build_calls: u64,
     pub longest_walk_pages: usize,
+    /// judged under the alternative notion of "current item" (the listing omits the entries in question)
+    pub alt_reading: bool,
+}
+
+/// true if the first full page lists an entry that only the first reading calls a current item
+pub fn follows_first_reading(l: &Listing, b: &Built, alt: &Built) -> bool {
+    let full = fetch(l, b, None, Some(MAX_LIMIT as u32)).unwrap_or_default();
+    full.iter()
+        .filter_map(|it| key_of(l, it))
+        .any(|k| !alt.expected.iter().any(|(a, _)| *a == k))
 }
 
 /// Enumerate the whole pager state space of one (listing, n) configuration.
 pub fn sweep(l: &Listing, n: usize, known: &dyn KnownMatcher) -> Result<(RunStats, Info), String> {
-    let t0 = Instant::now();
     let config = format!("{}/n={}", l.name, n);
     let b = l.build(n).map_err(|e| format!("{config}: {e}"))?;
+    let first = sweep_built(l, n, &b, false, known);
+    if first.0.found.iter().all(|f| f.known.is_some()) {
+        return Ok(first);
+    }
+    // The store admits a second reading of "current item". Which one does the listing follow?
+    // It lists an entry that only the first reading calls current => first reading; else the second.
+    if let Some(alt) = b.alternative() {
+        if !follows_first_reading(l, &b, &alt) {
+            let (mut st, mut info) = sweep_built(l, n, &alt, true, known);
+            st.transitions += first.0.transitions;
+            info.fetches += first.1.fetches;
+            info.alt_reading = true;
+            return Ok((st, info));
+        }
+    }
+    Ok(first)
+}
+
+fn sweep_built(l: &Listing, n: usize, b: &Built, alt_reading: bool, known: &dyn KnownMatcher) -> (RunStats, Info) {
+    let t0 = Instant::now();
+    let config = format!("{}/n={}", l.name, n);
     let mut st = RunStats { config: config.clone(), ..Default::default() };
     let mut info = Info {
         listing: l.name.to_string(),
@@ -380,7 +416,7 @@ pub fn sweep(l: &Listing, n: usize, known: &dyn KnownMatcher) -> Result<(RunStat
     cursors.extend(b.stored.iter().cloned().map(Some));
     for (li, limit) in LIMITS.iter().enumerate() {
         for c in &cursors {
-            let out = check_page(l, &b, n, *limit, c.as_ref());
+            let out = check_page(l, b, n, *limit, c.as_ref());
             states.insert((li, c.clone()));
             info.fetches += 1;
             let e = labels.entry("page_at_cursor".into()).or_insert((0, 0));
@@ -395,14 +431,14 @@ pub fn sweep(l: &Listing, n: usize, known: &dyn KnownMatcher) -> Result<(RunStat
                 info.short_nonfinal_pages += 1;
             }
             for v in out.viols {
-                record(&mut st, v, case_json(l, n, "page", *limit, c.as_ref()));
+                record(&mut st, v, case_json_reading(l, n, "page", *limit, c.as_ref(), alt_reading));
             }
         }
         // the default page size is 10: without a limit the answer is the answer for limit 10
         if limit.is_none() {
             for c in &cursors {
-                let a = fetch(l, &b, c.as_ref(), None);
-                let t = fetch(l, &b, c.as_ref(), Some(10));
+                let a = fetch(l, b, c.as_ref(), None);
+                let t = fetch(l, b, c.as_ref(), Some(10));
                 info.fetches += 2;
                 let e = labels.entry("default_vs_limit_10".into()).or_insert((0, 0));
                 if a.is_ok() && t.is_ok() {
@@ -423,13 +459,13 @@ pub fn sweep(l: &Listing, n: usize, known: &dyn KnownMatcher) -> Result<(RunStat
                                     t.len()
                                 ),
                             ),
-                            case_json(l, n, "page", None, c.as_ref()),
+                            case_json_reading(l, n, "page", None, c.as_ref(), alt_reading),
                         );
                     }
                 }
             }
         }
-        let w = check_walk(l, &b, n, *limit);
+        let w = check_walk(l, b, n, *limit);
         info.fetches += w.cursors.len() as u64;
         info.longest_walk_pages = info.longest_walk_pages.max(w.pages.len());
         let e = labels.entry("walk_page".into()).or_insert((0, 0));
@@ -447,7 +483,7 @@ pub fn sweep(l: &Listing, n: usize, known: &dyn KnownMatcher) -> Result<(RunStat
             })]);
         }
         for v in w.viols {
-            record(&mut st, v, case_json(l, n, "walk", *limit, None));
+            record(&mut st, v, case_json_reading(l, n, "walk", *limit, None, alt_reading));
         }
     }
     info.states = states.len() as u64;
@@ -457,5 +493,5 @@ pub fn sweep(l: &Listing, n: usize, known: &dyn KnownMatcher) -> Result<(RunStat
     st.fixpoint = true;
     st.labels = labels;
     st.wall_s = t0.elapsed().as_secs_f64();
-    Ok((st, info))
+    (st, info)
 }
